@@ -67,12 +67,8 @@ theorem sketch_row_heavy {hash : List Nat → Nat} {w d cmax : Nat} (hw : 0 < w)
     {h : List Op} {s : St} (hr : run hash w d cmax h = some s) {r : Nat} (hrd : r < d) {ε : ℝ}
     (hε : 0 < ε) (hN : 0 < totalWeight h) :
     ((((List.range w).map fun c => cell s.table (r * w + c)).countP
-      fun v : ℕ => ε * (totalWeight h : ℝ) < (v : ℝ)) : ℝ) < 1 / ε := by
-  have hN' : (0 : ℝ) < totalWeight h := by exact_mod_cast hN
-  have := list_heavy_lt ((List.range w).map fun c => cell s.table (r * w + c)) (mul_pos hε hN') hN
-    (le_of_eq (Pds.Props.C02.row_sums hw hd hr hrd))
-  have e : (totalWeight h : ℝ) / (ε * totalWeight h) = 1 / ε := by field_simp
-  rwa [e] at this
+      fun v : ℕ => ε * (totalWeight h : ℝ) < (v : ℝ)) : ℝ) < 1 / ε :=
+  Pds.Cms.sketch_row_heavy hw hd hr hrd hε hN
 
 /-! ### 3. the overestimate comes from the other elements -/
 
@@ -132,23 +128,13 @@ theorem cms_eps_delta {ε δ : ℝ} (hε : 0 < ε) (hδ : 0 < δ) (hδ1 : δ < 1
       ((badTuples hash w d (ε * totalWeight h) (others x (stream h))).card : ℝ) < δ * (w : ℝ) ^ d ∧
       (run hash w d cmax h = some s → ∀ v, query hash s x = some v →
         (ε * (totalWeight h : ℝ) < (v : ℝ) - (trueWeight h x : ℝ) ↔
-          colTuple hash hw d x ∈ badTuples hash w d (ε * totalWeight h) (others x (stream h)))) := by
-  rw [cmsParams_eq hε hδ hδ1] at hp
-  simp only [Option.some.injEq, Prod.mk.injEq] at hp
-  obtain ⟨rfl, rfl⟩ := hp
-  have hw := (cms_width_bounds hε).2
-  have hd := (cms_depth_bounds hδ hδ1).1
-  refine ⟨hw, hd, ?_, ?_⟩
-  · apply badTuples_card_lt hash hw hd hε (cms_width_bounds hε).1 (cms_depth_bounds hδ hδ1).2 hN
-    have := total_others x (stream h)
-    unfold totalWeight; omega
-  · intro hr v hq
-    exact overestimate_gt_iff hw hd (run_inv hw hd hr) x _ hq
+          colTuple hash hw d x ∈ badTuples hash w d (ε * totalWeight h) (others x (stream h)))) :=
+  Pds.Cms.cms_eps_delta hε hδ hδ1 hp hash cmax hN x
 
 /-! ### non-vacuity -/
 
 /-- `ε = 1`, `δ = 1/2` gives the `3 × 1` sketch (`⌈e⌉ = 3`, `⌈ln 2⌉ = 1`) -/
-example : cmsParams (1 : ℝ) (1 / 2) = some (3, 1) := by
+theorem cms_params_one_half : cmsParams (1 : ℝ) (1 / 2) = some (3, 1) := by
   rw [cmsParams_eq (by norm_num) (by norm_num) (by norm_num)]
   have h1 := Real.exp_one_gt_d9
   have h2 := Real.exp_one_lt_d9
@@ -161,6 +147,15 @@ example : cmsParams (1 : ℝ) (1 / 2) = some (3, 1) := by
     rw [one_div_one_div, Nat.ceil_eq_iff (by norm_num)]
     constructor <;> norm_num <;> linarith
   rw [e1, e2]
+
+/-- the hypotheses of `cms_eps_delta` are satisfiable: the `3 × 1` sketch, a colliding hasher and the
+stream `[(1,2),(2,3)]` of total weight 5 -/
+example (x : Nat) :
+    ((badTuples (fun l => l.sum) 3 1 ((1 : ℝ) * totalWeight [.addN 1 2, .addN 2 3])
+      (others x (stream [.addN 1 2, .addN 2 3]))).card : ℝ) < 1 / 2 * ((3 : ℕ) : ℝ) ^ 1 := by
+  obtain ⟨_, _, h, _⟩ := cms_eps_delta (s := default) (by norm_num) (by norm_num) (by norm_num)
+    cms_params_one_half (fun l => l.sum) 10 (h := [.addN 1 2, .addN 2 3]) (by decide) x
+  exact h
 
 example : cmsParams (0 : ℝ) (1 / 2) = none := (cms_params_none_iff _ _).mpr (Or.inl le_rfl)
 example : cmsParams (1 : ℝ) 1 = none := (cms_params_none_iff _ _).mpr (Or.inr (Or.inr le_rfl))
